@@ -16,6 +16,8 @@ PRESX = [[['a', 'alpha'], ['n', 1]], [['a', 'alpha'], ['a', 'beta']], [['a', 'be
 PRESPLIT = [[['a', 'alpha'], ['a', '1b']], [['a', 'alpha'], ['n', 2]], [['a', 'rc'], ['a', '1-x']], [['a', 'rc'], ['n', 1]],
             [['a', 'rc'], ['n', 1], ['a', '-x']], [['a', 'alpha'], ['a', '0x']]]
 KNOWN_SPLIT = 'C20:prerelease-ident-split'
+KNOWN_MULTI = 'C20:cfg-multivalued-key'
+MARK = '\x03'
 
 
 def ver(a, b, c, pre=None, build=None):
@@ -165,6 +167,47 @@ def mutate_cfg_text(rng, s):
     return s[:i] + rng.choice(['(', ')', ',', '"', '=', ' ']) + s[i + 1:]
 
 
+BARE = ['unix', 'windows', 'debug_assertions', 'panic_unwind', 'foo', 'docsrs']
+KEYS = {'target_os': ['linux', 'windows', 'macos'], 'target_arch': ['x86_64', 'aarch64'], 'target_family': ['unix', 'wasm'],
+        'target_feature': ['sse', 'sse2', 'fxsr', 'crt-static'], 'target_has_atomic': ['8', '16', '32', '64', 'ptr'],
+        'target_pointer_width': ['64', '32'], 'feature': ['std', 'a b'], 'bar': ['1', '']}
+
+
+def gen_options(rng, multi):
+    """what rustc --print cfg shows (+ --cfg flags): bare names and name="value" options; with
+    multi=False every key has one value (so the dict meson builds loses nothing)"""
+    opts = [[n, None] for n in rng.sample(BARE, rng.randint(0, 4))]
+    for k in rng.sample(sorted(KEYS), rng.randint(1, 6)):
+        vals = KEYS[k]
+        n = rng.randint(1, len(vals)) if (multi and k in ('target_feature', 'target_has_atomic', 'target_family')) else 1
+        for v in rng.sample(vals, n):
+            opts.append([k, v])
+    rng.shuffle(opts)
+    return opts
+
+
+def gen_glue_cfg(rng, opts, depth):
+    if depth == 0 or rng.random() < 0.3:
+        if rng.random() < 0.35:
+            return ['id', rng.choice(BARE)]
+        k = rng.choice(sorted(KEYS))
+        pres = [v for n, v in opts if n == k]
+        return ['eq', k, rng.choice(pres) if pres and rng.random() < 0.6 else rng.choice(KEYS[k])]
+    k = rng.choice(['not', 'all', 'any'])
+    if k == 'not':
+        return ['not', gen_glue_cfg(rng, opts, depth - 1)]
+    return [k, [gen_glue_cfg(rng, opts, depth - 1) for _ in range(rng.choice([0, 1, 2, 2, 3]))]]
+
+
+def glue_lines(c):
+    opts, nl = c['options'], c.get('nlines', len(c['options']))
+    lines = [n if v is None else '%s="%s"' % (n, v) for n, v in opts[:nl]]
+    flags = []
+    for n, v in opts[nl:]:
+        flags += c.get('filler', []) + ['--cfg', n if v is None else '%s="%s"' % (n, v)]
+    return lines, flags
+
+
 def to_args(d):
     out = []
     for k, v in d.items():
@@ -295,6 +338,49 @@ def run(ctx):
         if i % 16 == 1:
             cases.append(('cfg', [s, 'a', '']))
 
+    # the callers: lock-file resolution and the rustc-cfg dict
+    nres = 40000 if thorough else 4000
+    resolve_items = []
+    for i in range(nres):
+        r = rng.random()
+        vs = [rng.choice(allvers) for _ in range(rng.choice([0, 1, 2, 3, 4, 5, 6, 8]))]
+        if r < 0.45:
+            item = {'comps': [rng.choice(comps)], 'sp': rng.randrange(4), 'versions': vs}
+        elif r < 0.7:
+            item = {'comps': [rng.choice(comps + comps_pre)], 'sp': rng.randrange(4), 'versions': vs}
+        else:
+            item = dict(rng.choice(reqs_lists), versions=vs)
+        resolve_items.append(item)
+    rtexts = run_impl('c20.py', {'print': {'reqs': resolve_items, 'versions': []}})['print']['reqs']
+    vtext = dict((json.dumps(v, sort_keys=True), t) for v, t in zip(allvers, pv))
+    for item, text in zip(resolve_items, rtexts):
+        cases.append(('resolve', [text] + [vtext[json.dumps(v, sort_keys=True)] for v in item['versions']]))
+    for _ in range(nres // 8):
+        cases.append(('resolve', [gen_reqstr(rng)] + [rng.choice(junk + pv) for _ in range(rng.randint(0, 6))]))
+    # version.api through Dependency.api / CargoLockPackage.api (names of generated subprojects)
+    napi = 0
+    for text in rng.sample(preq_single, 600) + rng.sample(preq_lists, 300) + [gen_reqstr(rng) for _ in range(6000 if thorough else 600)]:
+        cases.append(('api', [text])); napi += 1
+    for v in pv[::3] + junk[:150] + ['0.0', '0', '0.0.0-x', '00.1', '0.00.3', '.5', '', '1. 2', '0.+1', '0._', '0.x', '٣.1', '0.1_0']:
+        cases.append(('pkgapi', [v])); napi += 1
+    nglue = 30000 if thorough else 3000
+    glue_items = []
+    for i in range(nglue):
+        opts = gen_options(rng, multi=(i % 5 == 0))
+        item = {'options': opts, 'nlines': rng.randint(0, len(opts)), 'ast': gen_glue_cfg(rng, opts, rng.choice([0, 1, 2, 3])),
+                'sp': i % 5, 'filler': rng.choice([[], ['-O'], ['-C', 'opt-level=3'], ['--cap-lints', 'allow']])}
+        glue_items.append(item)
+    gtexts = run_impl('c20.py', {'print': {'cfg': glue_items}})['print']['cfg']
+    for item, text in zip(glue_items, gtexts):
+        lines, flags = glue_lines(item)
+        cases.append(('getcfg', [text] + lines + [MARK] + flags))
+    for i in range(nglue // 6):
+        raw = rng.choice(['a=b=c', 'a="', 'a=', '=', '', 'k="v"x', 'k = "v"', 'unix', 'f="a=b"', '"q"', 'k="', "k='v'"]) if i % 3 == 0 \
+            else rng.choice(sorted(KEYS)) + rng.choice(['=', '="', '', '==']) + rng.choice(['x', 'linux"', '"', ''])
+        cases.append(('splitcfg', [raw]))
+        if i % 4 == 0:
+            cases.append(('getcfg', ['cfg(unix)', 'unix', raw, MARK] + rng.choice([['--cfg'], ['-O', '--cfg'], ['--cfg', raw], []])))
+
     # implementation vs extracted model
     CH = 20000
     chunks = [cases[i:i + CH] for i in range(0, len(cases), CH)]
@@ -302,10 +388,13 @@ def run(ctx):
     for r in pmap(lambda ch: run_impl('c20.py', {'cases': ch})['results'], chunks):
         impl += r
     model = ctx.run_model(cases, shards=NPROC) if built else impl
-    nev = 0
+    nev = noom = 0
     for (fn, args), ri, rm in zip(cases, impl, model):
         ctx.count((fn, tuple(args)), nontrivial=True)
         nev += (len(args) - 1) if fn == 'req' else 1
+        if rm == 'OOM':
+            noom += 1
+            continue
         if ri != rm:
             if len(ctx.disagreements) < 200:
                 ctx.disagreements.append({'case': [fn, args], 'implementation': ri, 'model': rm})
@@ -329,7 +418,7 @@ def run(ctx):
         'cfg_malformed_strings': nsoup,
         'error_classes_impl': {k: sum(1 for r in impl if r == k) for k in sorted(set(r for r in impl if r.startswith('EXC:')))}}
     ctx.extra['exhaustive'] = bool(thorough)
-    ctx.extra['out_of_model'] = 0
+    ctx.extra['out_of_model'] = noom
 
     # ------------------------------------------------------------ the oracle (implementation vs property clauses)
     groups = []
@@ -360,6 +449,12 @@ def run(ctx):
                                  'not(all(unix,))', 'not(any)', 'a=b', 'a==\"x\"', '(a)', 'all a', 'all(a))', 'a = "x" "y"', 'a="x"y', '=a', ',', '()']})
     for i in range(0, len(soups), 2500):
         groups.append({'malformed': soups[i:i + 2500]})
+    for i in range(0, len(resolve_items), 1000):
+        groups.append({'resolve': resolve_items[i:i + 1000]})
+    for i in range(0, len(glue_items), 1500):
+        groups.append({'cfgglue': glue_items[i:i + 1500]})
+    groups.append({'cfgglue': [{'options': [['target_feature', 'sse'], ['target_feature', 'sse2'], ['unix', None]],
+                                'ast': ['eq', 'target_feature', 'sse'], 'sp': 0}]})
     if ctx.disagreements:
         # neighbourhood of every disagreeing case: re-ask the oracle about its inputs
         for d in ctx.disagreements[:40]:
@@ -376,7 +471,7 @@ def run(ctx):
     # one violation per clause kind first, so that every distinct defect gets a replay file;
     # within a kind prefer mis-evaluations over rejections and short inputs over long ones
     def weight(f):
-        text = ''.join(str(f.get(k, '')) for k in ('a', 'b', 'c', 'req', 'version', 'expr'))
+        text = ''.join(str(f.get(k, '')) for k in ('a', 'b', 'c', 'req', 'version', 'versions', 'expr', 'rustc_cfg'))
         return (isinstance(f.get('got'), str), len(text) + 3 * len(f.get('cfgs') or {}))
     fails.sort(key=lambda f: (f['kind'],) + weight(f))
     seen_kind, ordered = set(), []
@@ -388,14 +483,22 @@ def run(ctx):
         kind = f['kind']
         if kind == 'semver_order' and f.get('split_class'):
             ident = KNOWN_SPLIT
+        elif kind == 'cfg_glue' and f.get('multivalued'):
+            ident = KNOWN_MULTI
         elif kind == 'exception':
             raise HarnessError('oracle crashed: ' + f['exc'])
         else:
-            ident = 'C20:%s:%s' % (kind, json.dumps({k: v for k, v in f.items() if k in ('a', 'b', 'c', 'req', 'version', 'expr', 'cfgs')}, sort_keys=True))
+            ident = 'C20:%s:%s' % (kind, json.dumps({k: v for k, v in f.items() if k in ('a', 'b', 'c', 'req', 'version', 'versions', 'expr', 'cfgs', 'rustc_cfg', 'rust_args')}, sort_keys=True))
         if kind in ('semver_order',):
             rp = {'case': ['cmp', [f['a'], f['b']]], 'failure': f}
-        elif kind in ('req_release', 'req_gate'):
+        elif kind == 'api':
+            rp = {'case': ['api', [f['req']]], 'failure': f}
+        elif kind in ('req_release', 'req_gate', 'req_prerelease'):
             rp = {'case': ['req', [f['req'], f['version']]], 'failure': f}
+        elif kind == 'resolve':
+            rp = {'case': ['resolve', [f['req']] + f['versions']], 'failure': f}
+        elif kind == 'cfg_glue':
+            rp = {'case': ['getcfg', [f['expr']] + f['rustc_cfg'] + [MARK] + f['rust_args']], 'failure': f}
         elif kind in ('cfg_eval', 'cfg_malformed'):
             rp = {'case': ['cfg', [f['expr']] + to_args(f['cfgs'])], 'failure': f}
         else:
@@ -415,11 +518,12 @@ def run(ctx):
                  'harness/check_C20.py generators and harness/impl/c20.py adapter/canonicaliser/oracle',
                  "Cargo's matcher (semver crate 1.x matches_exact/greater/less/tilde/caret) transcribed by hand into coq/Cargo/Spec.v and, "
                  'independently, into the Python oracle; no cargo binary in the sandbox to validate it against',
-                 'model covers cargo/version.py:26-46,69-263 and cargo/cfg.py:51-217; not modelled: version.api/_api_of, non-ASCII \\d digits, '
-                 'int() of >4300-digit runs, Python recursion limit for very deep cfg nesting, lru_cache identity'],
+                 'model covers cargo/version.py (whole), cargo/cfg.py:51-217, manifest.py:735-740 (CargoLock._versions), interpreter.py:520-530 '
+                 '(_resolve_package), 701-719 (_get_cfgs, _split_cfg); not modelled: non-ASCII \\d digits, int() beyond ASCII digit strings (counted '
+                 'out_of_model), int() of >4300-digit runs, Python recursion limit for very deep cfg nesting, lru_cache identity, TOML loading, rustc'],
         assumptions=['Print Assumptions: all property theorems closed under the global context (no axioms)',
                      'regex \\d restricted to ASCII digits in generated inputs',
-                     'the model is of the code with the four pending/C20-*.diff patches applied'],
+                     'the model is of the code after the four C20 fix: commits in /repo (pending/C20-*.diff)'],
         rule='grid of single-comparator requirements (9 operator forms x partial versions over {0,1,2,10} x optional pre-release) against all '
              'release versions and (thorough: all / quick: sampled) pre-release versions over the same domain, random comma lists, structured and junk '
              'SemVer strings (cmp/semver/sort), cfg expressions exhaustively to depth 2 (lists <= 2) over atoms a, b="x", b="y" x 8 assignments x 5 '
